@@ -304,6 +304,11 @@ func createShimChannel(ctx context.Context, host, shimPath string, rewriteHost b
 		targetURL := *(r.URL)
 		targetURL.Scheme = "ws"
 		targetURL.Host = host
+		// The client-supplied URL only contributes its path and query. An opaque
+		// URL ("scheme:opaque") is printed without any host, and user info would
+		// be sent on to the backend, so neither is kept.
+		targetURL.Opaque = ""
+		targetURL.User = nil
 		if originalHost := r.Host; rewriteHost && originalHost != "" {
 			r.Header.Set("Host", originalHost)
 		}
